@@ -307,6 +307,20 @@ def catalogue():
     for place, wrap in (("module", "%s"), ("function", "f = fn() -> int {\n\treturn %s\n}\n"), ("closure-in-function", "mk = fn() -> fn() -> int {\n\tc: int? = nil\n\treturn fn() -> int {\n\t\treturn (c) or %s\n\t}\n}\nf = mk()\n")):
         body = {"module": "r = (a) or b\n", "function": wrap % "(a) or b", "closure-in-function": wrap % "((a) or b)"}[place]
         c.append(("cat|or-with-optional-fallback-of-captured-operand:" + place, "a: int? = nil\nb: int? = nil\n" + body + "print \"@run\"\n" + (probe("r") if place == "module" else probe("f()"))))
+    for nm, decl_, use in (("argument", "take = fn(p: [str, int]) -> int {\n\treturn p[1]\n}\n", "take(%s)"), ("return", "mk = fn() -> [str, int] {\n\treturn %s\n}\n", None),
+                           ("initializer", "", None)):
+        for lst, init in (("[str...]", "[\"ab\", \"cy\"]"), ("[int...]", "[4, 5]")):
+            head = "xs: %s = %s\n" % (lst, init)
+            if nm == "argument":
+                body = decl_ + "print \"@run\"\n" + probe(use % "xs")
+            elif nm == "return":
+                body = decl_ % "xs" + "const pr = mk()\nprint \"@run\"\n" + probe("pr[0]") + probe("pr[1]")
+            else:
+                body = "const pr: [str, int] = xs\nprint \"@run\"\n" + probe("pr[0]") + probe("pr[1]")
+            c.append(("cat|open-list-into-heterogeneous-fixed-list:%s:%s" % (nm, lst), head + body))
+    c.append(("cat|empty-list-type-annotation", "strs: [str...] = [\"a\"]\nlaunder = fn(e: []) -> [] {\n\treturn e\n}\nints: [int...] = launder(strs)\nprint \"@run\"\n" + probe("ints[0]") + probe("ints[0] - 1")))
+    c.append(("cat|list-of-nil-two-element-types", "const e = [nil]\na: [int?...] = e\nb: [str?...] = e\na.push(5)\nprint \"@run\"\nv = get b[1]\n" + probe("v") + probe("v.len()")))
+    c.append(("cat|void-call-as-list-element", "g = fn() {\n}\nprint \"@run\"\nconst l = [g()]\n" + probe("l.len()") + "print l\n"))
     c.append(("cat|void-call-as-value", "f = fn() {\n}\nprint \"@run\"\nx = f()\nprint x\n"))
     c.append(("cat|map-missing-key-arith", "m = map[str, int] {\"a\": 1}\nprint \"@run\"\n" + probe("m[\"zz\"]") + "y = m[\"zz\"] + 1\nprint y\n"))
     c.append(("cat|list-of-optional-arith", "l: [int?...] = [1, nil]\nprint \"@run\"\nx = l[0] + 1\nprint x\n"))
